@@ -40,7 +40,7 @@ explain_exprs = D.explain_exprs
 shrink_candidates = D.shrink_candidates
 distribution = D.distribution
 
-W = dict(call=34, burst=10, adv=24, fin=14, setmax=6, **{'yield': 6}, **{'raise': 3}, junk=3)
+W = dict(call=34, chain=4, burst=10, adv=24, fin=14, setmax=6, **{'yield': 6}, **{'raise': 3}, junk=3)
 
 
 def corpus():
